@@ -157,6 +157,12 @@ pub struct FillCase {
     /// (None = created with `capacity` directly)
     #[serde(default)]
     pub initial_size: Option<usize>,
+    /// interleaved values delivered beyond a whole number of inter-channel samples (0 <= ragged < channels)
+    #[serde(default)]
+    pub ragged: usize,
+    /// history: 0 none, 1 a valid full integer block accepted first, 2 a valid full byte block accepted first
+    #[serde(default)]
+    pub prefill: u8,
 }
 
 fn rnd_samples(n: usize, bps: usize, seed: u64) -> Vec<i32> {
@@ -170,9 +176,10 @@ fn rnd_samples(n: usize, bps: usize, seed: u64) -> Vec<i32> {
 pub fn check_fill(c: &FillCase) -> Outcome {
     let mut out = Outcome::new(fnv(format!("{c:?}").as_bytes()));
     let native = (c.bps + 7) / 8;
-    let n = (c.capacity + c.extra) * c.channels;
+    let ragged = if c.channels >= 2 { c.ragged % c.channels } else { 0 };
+    let n = (c.capacity + c.extra) * c.channels + ragged;
     let v = rnd_samples(n, c.bps, c.seed);
-    let overfill = c.extra > 0;
+    let overfill = c.extra > 0 || ragged > 0;
     let bad_width_for_ctx = c.by_bytes && c.target != 0 && c.nbytes != native;
     let bad_width_any = c.by_bytes && !(1..=4).contains(&c.nbytes);
     let invalid = (overfill && c.target != 1) || bad_width_for_ctx || bad_width_any;
@@ -180,6 +187,12 @@ pub fn check_fill(c: &FillCase) -> Outcome {
     out.class(format!("target:{}", ["FrameBuf", "Context", "(FrameBuf,Context)"][c.target as usize % 3]));
     if overfill {
         out.class("arg:over-fill");
+    }
+    if ragged > 0 {
+        out.class("arg:over-fill-by-less-than-one-inter-channel-sample");
+    }
+    if c.prefill > 0 {
+        out.class("history:valid-block-accepted-first");
     }
     if bad_width_for_ctx {
         out.class("arg:byte-width-disagrees-with-context");
@@ -220,8 +233,24 @@ pub fn check_fill(c: &FillCase) -> Outcome {
         c.initial_size.map_or(String::new(), |s0| format!(" after resize from {s0}")),
         c.bps,
         c.capacity + c.extra,
-        if overfill { format!(" = {} more than the buffer holds", c.extra) } else { String::new() }
+        if overfill { format!(" (+{ragged} values) = {} samples and {ragged} values more than the buffer holds{}", c.extra, if c.prefill > 0 { ", after one valid full block" } else { "" }) } else { String::new() }
     );
+    if c.prefill > 0 {
+        // a valid full block first (the context has then seen a block, the buffer has been filled once)
+        let v0 = rnd_samples(c.capacity * c.channels, c.bps, c.seed ^ 0x55);
+        let b0: Vec<u8> = v0.iter().flat_map(|x| x.to_le_bytes()[..native.min(4)].to_vec()).collect();
+        let r0 = catch(|| {
+            if c.prefill == 1 {
+                (&mut fb, &mut cx).fill_interleaved(&v0)
+            } else {
+                (&mut fb, &mut cx).fill_le_bytes(&b0, native)
+            }
+        });
+        if !matches!(r0, Ok(Ok(()))) {
+            out.viol("fill-rejects-valid", format!("history block before: {what}: {r0:?}"));
+            return out;
+        }
+    }
     let r = catch(|| match (c.target % 3, c.by_bytes) {
         (0, false) => fb.fill_interleaved(&v),
         (0, true) => fb.fill_le_bytes(&bytes, c.nbytes),
@@ -285,6 +314,10 @@ pub enum Misbehave {
     /// the source fills with packed bytes for reads < `read` and with integers from read `read` on; the
     /// integer block of read `read` carries a sample just above the width
     BytesThenBadInt { read: usize },
+    /// byte fills with the right width for reads < `read`, with `width` bytes per sample from read `read` on
+    ByteWidthFrom { read: usize, width: usize },
+    /// the first read delivers `block_size` inter-channel samples plus `k` further values (0 < k < channels)
+    RaggedOverFill(usize),
 }
 
 #[derive(Clone, Debug, Serialize, Deserialize)]
@@ -366,9 +399,20 @@ impl Source for GridSource {
             }
         }
         self.pos += n * stride;
+        if let Misbehave::RaggedOverFill(r) = self.mis {
+            if k == 0 && n == block_size && stride >= 2 {
+                let r = 1 + (r % (stride - 1).max(1)).min(stride - 2);
+                let more = self.samples[self.pos..].iter().take(r).copied().collect::<Vec<_>>();
+                blk.extend(more);
+            }
+        }
         if by_bytes {
             let native = (self.bps.clamp(1, 32) + 7) / 8;
-            let w = if let Misbehave::ByteWidth(w) = self.mis { w } else { native };
+            let w = match self.mis {
+                Misbehave::ByteWidth(w) => w,
+                Misbehave::ByteWidthFrom { read, width } if k >= read => width,
+                _ => native,
+            };
             self.scratch.clear();
             for x in &blk {
                 let le = (*x as i64).to_le_bytes();
@@ -409,6 +453,9 @@ pub fn check_stream(c: &StreamCase17) -> Outcome {
             Misbehave::ByteWidth(w) => c.by_bytes && w != (c.bps + 7) / 8 && c.len > 0,
             Misbehave::OutOfRange { read, .. } => read * c.block < c.len,
             Misbehave::BytesThenBadInt { read } => read * c.block < c.len,
+            Misbehave::ByteWidthFrom { read, width } => c.by_bytes && width != (c.bps + 7) / 8 && read * c.block < c.len,
+            // needs a full first block and at least one more inter-channel sample to take the surplus from
+            Misbehave::RaggedOverFill(_) => c.channels >= 2 && c.len > c.block,
             Misbehave::None => false,
         }
     };
@@ -420,6 +467,8 @@ pub fn check_stream(c: &StreamCase17) -> Outcome {
         Misbehave::ByteWidth(_) => "byte-width",
         Misbehave::OutOfRange { .. } => "sample-outside-width",
         Misbehave::BytesThenBadInt { .. } => "byte-fills-then-integer-fill-with-sample-outside-width",
+        Misbehave::ByteWidthFrom { .. } => "byte-width-changes-after-accepted-blocks",
+        Misbehave::RaggedOverFill(_) => "over-fill-by-less-than-one-inter-channel-sample",
     }));
     // the source interleaves with its declared channel count where that is feasible
     let stride = if (1..=64).contains(&c.channels) { c.channels } else { 1 };
@@ -646,6 +695,16 @@ fn stream_grid(thorough: bool) -> Vec<Case17> {
             for e in [1usize, 2, 64, 1000] {
                 v.push(Case17::Stream(StreamCase17 { mis: Misbehave::OverFill(e), len: 3000, ..b.clone() }));
             }
+            for read in 1..4usize {
+                for (bps, width) in [(16usize, 1usize), (16, 3), (16, 4), (24, 2), (24, 4), (8, 2), (12, 1), (20, 2), (20, 4)] {
+                    v.push(Case17::Stream(StreamCase17 { mis: Misbehave::ByteWidthFrom { read, width }, by_bytes: true, bps, len: 400, ..b.clone() }));
+                }
+            }
+            for ch in [2usize, 3, 8] {
+                for k in 0..ch - 1 {
+                    v.push(Case17::Stream(StreamCase17 { mis: Misbehave::RaggedOverFill(k), channels: ch, len: 300, ..b.clone() }));
+                }
+            }
             for w in [0usize, 1, 3, 4, 5, 8] {
                 v.push(Case17::Stream(StreamCase17 { mis: Misbehave::ByteWidth(w), by_bytes: true, ..b.clone() }));
                 v.push(Case17::Stream(StreamCase17 { mis: Misbehave::ByteWidth(w), by_bytes: true, bps: 24, ..b.clone() }));
@@ -681,11 +740,21 @@ fn fill_grid() -> Vec<Case17> {
                 for (bps, cap) in [(16usize, 64usize), (24, 33), (8, 32)] {
                     let native = (bps + 7) / 8;
                     for extra in [0usize, 1, 2, 31, 64, 1000] {
-                        v.push(Case17::Fill(FillCase { channels, bps, capacity: cap, extra, nbytes: native, target, by_bytes, seed: 3, initial_size: None }));
+                        v.push(Case17::Fill(FillCase { channels, bps, capacity: cap, extra, nbytes: native, target, by_bytes, seed: 3, initial_size: None, ragged: 0, prefill: 0 }));
+                    }
+                    // over-fills by less than one inter-channel sample
+                    for ragged in 1..channels {
+                        for extra in [0usize, 1] {
+                            for prefill in [0u8, 1] {
+                                v.push(Case17::Fill(FillCase { channels, bps, capacity: cap, extra, nbytes: native, target, by_bytes, seed: 6, initial_size: None, ragged, prefill }));
+                            }
+                        }
                     }
                     if by_bytes {
                         for nbytes in [0usize, 1, 2, 3, 4, 5, 8, 9, 255, P32 + 2, usize::MAX] {
-                            v.push(Case17::Fill(FillCase { channels, bps, capacity: cap, extra: 0, nbytes, target, by_bytes, seed: 4, initial_size: None }));
+                            for prefill in [0u8, 1, 2] {
+                                v.push(Case17::Fill(FillCase { channels, bps, capacity: cap, extra: 0, nbytes, target, by_bytes, seed: 4, initial_size: None, ragged: 0, prefill }));
+                            }
                         }
                     }
                 }
@@ -698,7 +767,7 @@ fn fill_grid() -> Vec<Case17> {
             for channels in [1usize, 2, 3] {
                 for (s0, cap) in [(4096usize, 1024usize), (1024, 4096), (100, 150), (150, 100), (64, 32), (32, 33)] {
                     for extra in [0usize, 1, 2, 50, 1000, 3072] {
-                        v.push(Case17::Fill(FillCase { channels, bps: 16, capacity: cap, extra, nbytes: 2, target, by_bytes, seed: 5, initial_size: Some(s0) }));
+                        v.push(Case17::Fill(FillCase { channels, bps: 16, capacity: cap, extra, nbytes: 2, target, by_bytes, seed: 5, initial_size: Some(s0), ragged: 0, prefill: 0 }));
                     }
                 }
             }
@@ -741,8 +810,8 @@ pub fn run(ctx: &Ctx) {
     ctx.rule(
         "complete grids, one argument at a time with the others valid (thorough: also pairs): \
          StreamInfo::new / Stream::new over the FULL product of rate x channels x bits grids {0, min-1, min, max, max+1, 2^8+k, 2^16+k, 2^32+k, usize::MAX}; FrameBuf::with_size over the full product channels x size; \
-         fills of FrameBuf / Context / (FrameBuf, Context) with capacity+extra samples (extra in {0,1,2,31,64,1000}) as integers and bytes, byte widths {0..5, 8, 9, 255, 2^32+2, usize::MAX}; \
-         encode_with_fixed_block_size in single- and multi-thread mode (60 s deadline per call) from a source that declares grid values for rate / channels / bits, with grid block sizes, over-long reads, wrong byte widths and samples outside the width at read 0..3; \
+         fills of FrameBuf / Context / (FrameBuf, Context) with capacity+extra samples (extra in {0,1,2,31,64,1000}; also capacity + 1..channels-1 surplus VALUES, i.e. less than one inter-channel sample too many) as integers and bytes, byte widths {0..5, 8, 9, 255, 2^32+2, usize::MAX}, each also after a valid block has been accepted (history); \
+         encode_with_fixed_block_size in single- and multi-thread mode (60 s deadline per call) from a source that declares grid values for rate / channels / bits, with grid block sizes, over-long reads (by whole samples and by 1..channels-1 values), wrong byte widths from the first read or only from read 1..3 on, and samples outside the width at read 0..3; \
          encode_fixed_size_frame over the frame-number grid and with one sample just outside / far outside the width at several positions; plus proptest-generated positions, widths and over-fill amounts; \
          oracle: Err, or a result that states exactly the given values (accessors, serialised STREAMINFO, decoded audio, MD5, frame number); never a panic / hang / reinterpreted value; Err is REQUIRED for over-fills, disagreeing byte widths, samples outside the width, frame numbers >= 2^31 and block sizes outside 32..=32767; \
          non-trivial = grid point with an argument outside the documented domain; distinct by value",
@@ -777,7 +846,7 @@ pub fn run(ctx: &Ctx) {
             .prop_map(|(channels, bps, capacity, extra, nb, target, by_bytes, seed)| {
                 let native = (bps + 7) / 8;
                 let nbytes = if nb == 6 { native } else { nb };
-                Case17::Fill(FillCase { channels, bps, capacity, extra, nbytes, target, by_bytes, seed, initial_size: if seed % 3 == 0 { Some(32 + (seed / 3 % 600) as usize) } else { None } })
+                Case17::Fill(FillCase { channels, bps, capacity, extra, nbytes, target, by_bytes, seed, initial_size: if seed % 3 == 0 { Some(32 + (seed / 3 % 600) as usize) } else { None }, ragged: if seed % 5 < 2 { (seed / 5 % 8) as usize } else { 0 }, prefill: (seed / 7 % 3) as u8 })
             })
     }, check);
     ctx.search("gen-frame", 16, per * 2, &|| {
@@ -791,6 +860,8 @@ pub fn run(ctx: &Ctx) {
             2 => (0usize..=5).prop_map(Misbehave::ByteWidth),
             3 => (0usize..6, any::<usize>(), any::<bool>()).prop_map(|(read, index, above)| Misbehave::OutOfRange { read, index, above }),
             2 => (1usize..6).prop_map(|read| Misbehave::BytesThenBadInt { read }),
+            2 => (1usize..6, 0usize..=5).prop_map(|(read, width)| Misbehave::ByteWidthFrom { read, width }),
+            1 => (0usize..7).prop_map(Misbehave::RaggedOverFill),
         ];
         (1usize..=8, proptest::sample::select(vec![8usize, 12, 16, 20, 24]), 32usize..=200, 0usize..=900, any::<bool>(), any::<bool>(), mis, any::<u64>())
             .prop_map(|(channels, bps, block, len, multithread, by_bytes, mis, seed)| Case17::Stream(StreamCase17 { rate: 48000, channels, bps, block, len, multithread, by_bytes, mis, seed, hint: seed % 2 == 0 }))
